@@ -123,6 +123,19 @@ func bigFromBytes(x ssa.Value) (ssa.Value, bool) {
 }
 
 func checkC05(p *Program, r *Report) {
+	// round 6 (systematic): the Base58 / Base58Check layer this property's strings go through is C07's — its table,
+	// checksum, exactness and purity clauses are necessary here too (§2.11)
+	r.Borrow("C07", func(o *Ob) (string, bool) {
+		switch o.Rule {
+		case "C07.tables", "C07.checksum", "C07.exact", "C07.pure":
+			if strings.Contains(o.Func, "bech32") || strings.Contains(o.Construct, "bech32") {
+				return "", false
+			}
+			return "C05.base58", true
+		}
+		return "", false
+	})
+	r.Floor("C05.base58", 5)
 	sharedStateRule(p, r, NewEffects(p), "C05.shared", []string{"hdkeychain/extendedkey.go", "base58/base58.go", "base58/base58check.go"})
 	r.Floor("C05.shared", 10)
 	// a memoised serialisation must follow every change of the fields it was computed from (SetNet, Zero)
